@@ -342,7 +342,8 @@ def du5_formats(ctx):
     b = ctx.facts.one(r'^compiler::duration::DurationItem::duration_formatter$')
     ctx.fn(b)
     loops = b.loops()
-    if len(loops) != 2:
+    finds = model.deep_calls(ctx, b, r'Iterator>?::find$')        # `iter().find(exact).or_else(|| iter().find(generic))`
+    if not (len(loops) == 2 or (not loops and len(finds) == 2)):
         ctx.finding('DU5', 'duration_formatter/loops', 'duration_formatter no longer has the two passes (exact count, then generic)', site=b.loc)
     else:
         ctx.ok('DU5', 'duration_formatter: exact-count pass, then generic pass', 'shape', site=b.loc)
